@@ -198,7 +198,7 @@ pub fn rule_for(prop: Prop) -> &'static str {
         Prop::C09 => "generated AdaptiveCache cases; non-trivial = both a recent-ghost hit and a frequent-ghost hit occurred, one of them while full; distinct by case hash",
         Prop::C10 => "generated WTinyLFUCache cases (hot-key-skewed gets); non-trivial = at least one admission comparison was executed; distinct by case hash",
         Prop::C12 => "generated cases, every put-like call judged by set arithmetic on the retained set before/after; non-trivial = a put evicted an entry or hit a ghost; distinct by case hash",
-        Prop::C14 => "generated cache states x generated next/next_back interleavings (plus all interleavings of length len+2 for lists of <= 3 entries in a quarter of the cases); non-trivial = a list of >= 2 entries walked from both ends; distinct by case hash",
+        Prop::C14 => "generated cache states x generated next/next_back interleavings, the rest consumed through a generated standard path (count/last/nth/nth_back/fold/rfold/rev/skip/step_by/take/for-break) compared with the same path on a Vec iterator of the expected items (plus all interleavings of length len+2 for lists of <= 3 entries in a quarter of the cases); non-trivial = a list of >= 2 entries walked from both ends; distinct by case hash",
         Prop::C15 => "generated cases on callback-carrying RawLRUs (both constructors); non-trivial = callbacks fired through at least two different paths (eviction/remove/remove_lru/purge/resize) and one carried a value written through a mutable reference; distinct by case hash",
         Prop::Trace => "",
     }
